@@ -144,6 +144,26 @@ def audit(pid, obl):
 
 # ---------------------------------------------------------------- case running
 
+# CPython >= 3.11 refuses int <-> str conversions beyond 4300 digits by default.  The harness itself (protocol
+# lines, evidence, messages) must be able to print any integer it generates, so the limit is lifted for the
+# harness - and put back to the interpreter's default around every call into the implementation, which must
+# behave as it does for a user with a stock interpreter.
+_INT_STR_DEFAULT = sys.get_int_max_str_digits() if hasattr(sys, 'get_int_max_str_digits') else None
+if _INT_STR_DEFAULT is not None:
+    sys.set_int_max_str_digits(0)
+
+
+class _stock_interpreter(object):
+    def __enter__(self):
+        if _INT_STR_DEFAULT is not None:
+            sys.set_int_max_str_digits(_INT_STR_DEFAULT)
+
+    def __exit__(self, *exc):
+        if _INT_STR_DEFAULT is not None:
+            sys.set_int_max_str_digits(0)
+        return False
+
+
 def run_cases(mod, cases, use_driver=True, per_case_timeout=20):
     """returns dict with per-case results"""
     got = []
@@ -151,7 +171,8 @@ def run_cases(mod, cases, use_driver=True, per_case_timeout=20):
     for c in cases:
         signal.alarm(per_case_timeout)
         try:
-            g = mod.impl(c)
+            with _stock_interpreter():
+                g = mod.impl(c)
         except Timeout:
             g = '!timeout'
         except Exception as e:       # impl() canonicalises expected errors itself
@@ -169,7 +190,8 @@ def run_cases(mod, cases, use_driver=True, per_case_timeout=20):
                 continue
             signal.alarm(per_case_timeout)
             try:
-                g2 = mod.impl(cases[i])
+                with _stock_interpreter():
+                    g2 = mod.impl(cases[i])
             except Timeout:
                 g2 = got[i]
             except Exception as e:
